@@ -315,11 +315,12 @@ class Address(BaseAddress):
             if self.parent and address.parent and self.parent[0] == address.parent[0]:
                 return f"'{'.'.join(self.parent)}.{self.name}'"
 
-            # Edge case: Similar to above, if this is a message that is
-            # referencing a nested message that it contains, we need
+            # Edge case: Similar to above, if this is a (top-level) message
+            # that is referencing a nested message that it contains, we need
             # the message to be referenced relative to this message's
-            # namespace.
-            if self.parent and self.parent[0] == address.name:
+            # namespace. A nested message that merely shares its name with
+            # the top-level parent does not contain the referenced message.
+            if self.parent and not address.parent and self.parent[0] == address.name:
                 return ".".join(self.parent[1:] + (self.name,))
 
             # It is possible that a field references a message that has
